@@ -428,6 +428,9 @@ pub enum Stratum {
     Program { n: u32 },
     /// fault-steered trials of one form
     FaultSteer { code: Code, n: u32 },
+    /// ONE mirror machine is reused for n trials (state reset through the public API, code bytes rewritten in place):
+    /// any hidden state that makes step() depend on history (caches, stale flags) shows as a disagreement with the CPU
+    Persist { n: u32 },
 }
 
 pub struct CensusEntry {
@@ -855,6 +858,7 @@ impl Monitor for HwMonitor {
                     super::prog::run_program(self, col, rng);
                 }
             }
+            Stratum::Persist { n } => self.persist_batch(col, rng, n),
             Stratum::FaultSteer { code, n } => {
                 let classes = [Target::LastValid, Target::OnePast, Target::ReadOnly, Target::Unmapped, Target::NonCanonical, Target::BeforeStart, Target::CodeRegion, Target::FirstByte, Target::Null, Target::DataMid, Target::High];
                 for j in 0..n {
@@ -868,7 +872,116 @@ impl Monitor for HwMonitor {
     }
 }
 
+/// Brings an existing machine to the pre-state of `t` using only the public API.
+fn reset_machine(ax: &mut Axecutor, t: &Trial, want: &[Vec<u8>]) -> Result<(), String> {
+    // memory: rewrite the ranges that differ (code / read-only regions need their protection lifted for the write)
+    let mut writes: Vec<(usize, u64, Vec<u8>)> = Vec::new();
+    let mut seen = 0;
+    ax.verif_for_each_area(|start, _acc, data| {
+        if let Some(ri) = REGIONS.iter().position(|r| r.start == start) {
+            seen += 1;
+            let w = &want[ri];
+            if data.len() == w.len() && data != &w[..] {
+                let mut j = 0;
+                while j < w.len() {
+                    if data[j] != w[j] {
+                        let st = j;
+                        let mut last = j;
+                        j += 1;
+                        while j < w.len() && j - last <= 16 {
+                            if data[j] != w[j] {
+                                last = j;
+                            }
+                            j += 1;
+                        }
+                        writes.push((ri, start + st as u64, w[st..=last].to_vec()));
+                    } else {
+                        j += 1;
+                    }
+                }
+            }
+        }
+    });
+    if seen != REGIONS.len() {
+        return Err("areas missing".into());
+    }
+    for (ri, addr, bytes) in writes {
+        let r = &REGIONS[ri];
+        let lift = r.prot & PROT_W == 0;
+        if lift {
+            ax.mem_prot(r.start, 7).map_err(|e| err_first_line(&e))?;
+        }
+        let res = ax.mem_write_bytes(addr, &bytes).map_err(|e| err_first_line(&e));
+        if lift {
+            ax.mem_prot(r.start, r.prot).map_err(|e| err_first_line(&e))?;
+        }
+        res?;
+    }
+    for (i, r) in GPR64.iter().enumerate() {
+        ax.reg_write_64(sr(*r), t.gpr[i]).map_err(|e| err_first_line(&e))?;
+    }
+    for i in 0..16u32 {
+        ax.reg_write_128(sr(Register::XMM0 + i), t.xmm[i as usize]).map_err(|e| err_first_line(&e))?;
+    }
+    ax.reg_write_64(sr(Register::RIP), t.rip).map_err(|e| err_first_line(&e))?;
+    ax.verif_set_rflags(t.flags & (F_STATUS | F_DF));
+    ax.write_fs(t.fs);
+    ax.write_gs(t.gs);
+    Ok(())
+}
+
 impl HwMonitor {
+    fn persist_batch(&mut self, col: &mut Collector, rng: &mut Rng, n: u32) {
+        let forms = forms_of(&[Family::Data]);
+        let Some(base) = self.child_base(col) else { return };
+        let mut machine: Option<Axecutor> = None;
+        for _ in 0..n {
+            let code = *rng.pick(&forms);
+            let Some(mut bytes) = build_g1(rng, code, CODE_RIP, &GenOpts::default()) else { continue };
+            if rng.below(4) == 0 {
+                bytes = mutate_g2(rng, bytes);
+            }
+            let Some(ins) = decode(&bytes, CODE_RIP) else { continue };
+            if family(ins.mnemonic()) != Family::Data {
+                continue;
+            }
+            let st = steer(rng, &ins, &bytes[..ins.len()], CODE_RIP, &SteerOpts::default());
+            if st.invalid {
+                continue;
+            }
+            let t = st.trial;
+            // the pre-state memory image of this trial
+            let mut want = base.clone();
+            let mut apply = |want: &mut Vec<Vec<u8>>, addr: u64, b: &[u8]| {
+                if let Some(ri) = region_of(addr) {
+                    let off = (addr - REGIONS[ri].start) as usize;
+                    let k = b.len().min(REGIONS[ri].len - off);
+                    want[ri][off..off + k].copy_from_slice(&b[..k]);
+                }
+            };
+            for (a, b) in &t.patches {
+                apply(&mut want, *a, b);
+            }
+            apply(&mut want, t.rip, &t.code);
+            let ax = match machine.take() {
+                Some(mut ax) => match catch(|| reset_machine(&mut ax, &t, &want)) {
+                    Ok(Ok(())) => ax,
+                    _ => {
+                        col.count("persistent_machine_reset_failed", 1);
+                        continue;
+                    }
+                },
+                None => match catch(|| build_mirror(&t, &want)) {
+                    Ok(Ok(ax)) => ax,
+                    _ => continue,
+                },
+            };
+            let (_out, back) = self.run_trial_core(col, &ins, &t, "persistent-machine", Some(ax));
+            col.count("persistent_machine_trials", 1);
+            machine = back.filter(|m| !m.verif_finished());
+        }
+    }
+
     /// LEA: one ModRM byte (mod != 3) x every SIB byte where one follows x REX.X/B x {none,0x67}
     /// x {none,FS,GS}, several register vectors each. LEA never faults, so values are unconstrained.
     fn lea_enum(&mut self, col: &mut Collector, rng: &mut Rng, modrm: u8, opsize: u8) {
